@@ -54,8 +54,8 @@ Record R (sg : sstate) (s : mstate) : Prop := mkR {
   R_mem : forall i, nth i (s_mem s) 0 = nth i (map (beval rho) (ss_mem sg)) 0;
   R_store : store_agree (w_storage (s_world s)) (ss_store sg);
   R_tstore : store_agree (w_transient (s_world s)) (ss_tstore sg);
-  R_bal : forall a, get_balance (s_world s) a = rho (VBal a);
-  R_ret : s_ret s = [];
+  R_bal : forall a, get_balance (s_world s) a = eval rho (sbal se a);
+  R_ret : s_ret s = map (beval rho) (ss_ret sg);
 }.
 
 Definition leaf_matches (k : leaf_kind) (s : mstate) (r : result) : Prop :=
@@ -63,7 +63,7 @@ Definition leaf_matches (k : leaf_kind) (s : mstate) (r : result) : Prop :=
   | LOk ret st tst =>
       exists w logs, r = ROk w (s_ctr s) (map (beval rho) ret) logs /\
                      store_agree (w_storage w) st /\ store_agree (w_transient w) tst /\
-                     (forall a, get_balance w a = rho (VBal a))
+                     (forall a, get_balance w a = eval rho (sbal se a))
   | LRevert ret => r = RRevert (s_ctr s) (map (beval rho) ret)
   | LHalt kd => r = RHalt (s_ctr s) kd
   | LStuck _ => True
@@ -103,10 +103,10 @@ Definition sim_result (sg : sstate) (sr : sres) (s : mstate) (cr : step_result) 
   | SBranch c t rest =>
       (eval rho c = 0 ->
          exists s', cr = Continue s' /\
-           forall p v, R (mkSS (S (ss_pc sg)) rest (ss_mem sg) (ss_store sg) (ss_tstore sg) p v) s')
+           forall p v, R (mkSS (S (ss_pc sg)) rest (ss_mem sg) (ss_store sg) (ss_tstore sg) p v (ss_ret sg)) s')
       /\ (eval rho c <> 0 -> is_jumpdest (se_code se) t = true ->
             exists s1 s2, cr = Continue s1 /\ (forall rs, step lim rs inst_env s1 = Continue s2) /\
-              forall p v, R (mkSS (S (Z.to_nat t)) rest (ss_mem sg) (ss_store sg) (ss_tstore sg) p v) s2)
+              forall p v, R (mkSS (S (Z.to_nat t)) rest (ss_mem sg) (ss_store sg) (ss_tstore sg) p v (ss_ret sg)) s2)
       /\ (eval rho c <> 0 -> is_jumpdest (se_code se) t = false ->
             cr = Done (RHalt (s_ctr s) H_BADJUMP))
   end.
@@ -212,10 +212,10 @@ Proof.
       rewrite (mread_expand_agree sg s _ _ _ _ HR). reflexivity.
   - (* IEnv *)
     destruct g; cbn [senv_value]; try exact I;
-      (apply sim_snext; [exact HR | unfold push; rewrite Hst; cbn [map eval env_value inst_env e_this e_origin e_caller e_value e_data e_code e_block]; rewrite ?map_length, ?Hret, ?Hpc, ?Hbal; reflexivity]).
+      (apply sim_snext; [exact HR | unfold push; rewrite Hst; cbn [map eval env_value inst_env e_this e_origin e_caller e_value e_data e_code e_block]; rewrite ?map_length, ?Hret, ?map_length, ?Hpc, ?Hbal; reflexivity]).
   - (* IBalance *)
     rewrite Hst. destruct (ss_stack sg) as [|x r]; cbn [map]; try halt_leaf.
-    destruct x; try exact I. apply sim_snext; [exact HR|]. cbn [map eval]. rewrite Hbal. reflexivity.
+    destruct x; try exact I. apply sim_snext; [exact HR|]. cbn [map]. rewrite Hbal. reflexivity.
   - (* ICalldataload *)
     rewrite Hst. destruct (ss_stack sg) as [|x r]; cbn [map]; try halt_leaf.
     destruct x; try exact I. destruct (z <? 0); [exact I|].
@@ -243,7 +243,7 @@ Proof.
         apply (sim_result_ctr _ _ _ (with_mem s M2)); [reflexivity|].
         apply sim_snext; [|reflexivity].
         destruct HR as [h1 h2 h3 h4 h5 h6 h7 h8].
-        constructor; cbn [s_pc s_stack s_mem s_world s_ret s_ctr with_mem ss_pc ss_stack ss_mem ss_store ss_tstore set_mem]; try assumption.
+        constructor; cbn [s_pc s_stack s_mem s_world s_ret s_ctr with_mem ss_pc ss_stack ss_mem ss_store ss_tstore ss_ret set_mem]; try assumption.
         intros i. subst M2.
         rewrite mwrite_nth by (rewrite HlenB; apply mexpand_length; apply Nat.eqb_neq; exact Hn).
         rewrite smwrite_nth, Hsrc, mexpand_nth.
@@ -273,7 +273,7 @@ Proof.
         apply (sim_result_ctr _ _ _ (with_mem s M2)); [reflexivity|].
         apply sim_snext; [|reflexivity].
         destruct HR as [h1 h2 h3 h4 h5 h6 h7 h8].
-        constructor; cbn [s_pc s_stack s_mem s_world s_ret s_ctr with_mem ss_pc ss_stack ss_mem ss_store ss_tstore set_mem]; try assumption.
+        constructor; cbn [s_pc s_stack s_mem s_world s_ret s_ctr with_mem ss_pc ss_stack ss_mem ss_store ss_tstore ss_ret set_mem]; try assumption.
         intros i. subst M2.
         rewrite mwrite_nth by (rewrite HlenB; apply mexpand_length; apply Nat.eqb_neq; exact Hn).
         rewrite smwrite_nth, Hsrc, mexpand_nth.
@@ -286,14 +286,32 @@ Proof.
     + destruct x; try exact I; destruct y; try exact I; halt_leaf.
     + destruct x; try exact I. destruct y; try exact I. destruct w; try exact I. cbn [eval].
       destruct ((z <? 0) || (z0 <? 0) || (z1 <? 0)) eqn:Eneg; [exact I|].
-      rewrite Hret. cbn [length Z.of_nat].
-      destruct (0 <? z0 + z1) eqn:E; [halt_leaf|].
-      assert (z1 = 0).
-      { apply orb_false_iff in Eneg. destruct Eneg as [Eneg E3]. apply orb_false_iff in Eneg. destruct Eneg as [E1 E2].
-        apply Z.ltb_ge in E, E1, E2, E3. lia. }
-      subst z1. unfold copy_to_mem, oog_range. cbn [Z.eqb negb andb Z.to_nat Nat.eqb].
-      apply (sim_result_ctr _ _ _ (with_mem s (mexpand (s_mem s) (Z.to_nat z) 0))); [reflexivity|].
-      apply sim_snext; [apply R_with_mem_expand; exact HR | reflexivity].
+      rewrite Hret, map_length.
+      destruct (Z.of_nat (length (ss_ret sg)) <? z0 + z1); [halt_leaf|].
+      unfold copy_to_mem, s_oog_range, oog_range. destruct (negb (z1 =? 0) && (lim <? z + z1)); [halt_leaf|].
+      destruct (z1 =? 0) eqn:En.
+      * apply Z.eqb_eq in En. subst z1. cbn [Z.to_nat Nat.eqb].
+        apply (sim_result_ctr _ _ _ (with_mem s (mexpand (s_mem s) (Z.to_nat z) 0))); [reflexivity|].
+        apply sim_snext; [apply R_with_mem_expand; exact HR | reflexivity].
+      * assert (Hn : (Z.to_nat z1 =? 0)%nat = false).
+        { apply Nat.eqb_neq. apply Z.eqb_neq in En.
+          apply orb_false_iff in Eneg. destruct Eneg as [_ E3]. apply Z.ltb_ge in E3. lia. }
+        rewrite Hn.
+        match goal with |- sim_result _ (snext (set_mem _ (smwrite _ _ ?src)) _) _ (next (with_mem _ (mwrite ?m1 _ ?bs)) _) =>
+          set (SRC := src); set (BS := bs); set (M2 := mwrite m1 (Z.to_nat z) BS) end.
+        assert (Hsrc : map (beval rho) SRC = BS) by (subst SRC BS; rewrite smread_map; reflexivity).
+        assert (HlenB : length BS = Z.to_nat z1) by (subst BS; unfold zread; rewrite firstn_length, app_length, repeat_length; lia).
+        clearbody SRC BS.
+        apply (sim_result_ctr _ _ _ (with_mem s M2)); [reflexivity|].
+        apply sim_snext; [|reflexivity].
+        destruct HR as [h1 h2 h3 h4 h5 h6 h7 h8].
+        constructor; cbn [s_pc s_stack s_mem s_world s_ret s_ctr with_mem ss_pc ss_stack ss_mem ss_store ss_tstore ss_ret set_mem]; try assumption.
+        intros i. subst M2.
+        rewrite mwrite_nth by (rewrite HlenB; apply mexpand_length; apply Nat.eqb_neq; exact Hn).
+        rewrite smwrite_nth, Hsrc, mexpand_nth.
+        assert (Hl2 : @length bterm SRC = length BS) by (rewrite <- Hsrc, map_length; reflexivity).
+        rewrite Hl2.
+        destruct ((Z.to_nat z <=? i) && (i <? Z.to_nat z + length BS))%nat; auto.
   - (* IPop *)
     rewrite Hst. destruct (ss_stack sg) as [|x r]; cbn [map]; try halt_leaf.
     apply sim_snext; [exact HR | reflexivity].
@@ -314,7 +332,7 @@ Proof.
       apply (sim_result_ctr _ _ _ (with_mem s m2)); [reflexivity|].
       apply sim_snext; [|reflexivity].
       destruct HR as [h1 h2 h3 h4 h5 h6 h7 h8].
-      constructor; cbn [s_pc s_stack s_mem s_world s_ret s_ctr with_mem ss_pc ss_stack ss_mem ss_store ss_tstore set_mem]; try assumption.
+      constructor; cbn [s_pc s_stack s_mem s_world s_ret s_ctr with_mem ss_pc ss_stack ss_mem ss_store ss_tstore ss_ret set_mem]; try assumption.
       intros i. subst m2.
       rewrite mwrite_nth by (rewrite be_bytes_length; apply mexpand_length; lia).
       rewrite smwrite_nth, word_bytes_map, word_bytes_length, be_bytes_length, mexpand_nth.
@@ -328,7 +346,7 @@ Proof.
       apply (sim_result_ctr _ _ _ (with_mem s m2)); [reflexivity|].
       apply sim_snext; [|reflexivity].
       destruct HR as [h1 h2 h3 h4 h5 h6 h7 h8].
-      constructor; cbn [s_pc s_stack s_mem s_world s_ret s_ctr with_mem ss_pc ss_stack ss_mem ss_store ss_tstore set_mem]; try assumption.
+      constructor; cbn [s_pc s_stack s_mem s_world s_ret s_ctr with_mem ss_pc ss_stack ss_mem ss_store ss_tstore ss_ret set_mem]; try assumption.
       intros i. subst m2.
       rewrite mwrite_nth by (cbn [length]; apply mexpand_length; lia).
       rewrite smwrite_nth, mexpand_nth. cbn [length map]. unfold beval at 1. cbn [fst snd]. rewrite be_bytes_last.
@@ -424,7 +442,7 @@ Proof.
         apply (sim_result_ctr _ _ _ (with_mem s M2)); [reflexivity|].
         apply sim_snext; [|reflexivity].
         destruct HR as [h1 h2 h3 h4 h5 h6 h7 h8].
-        constructor; cbn [s_pc s_stack s_mem s_world s_ret s_ctr with_mem ss_pc ss_stack ss_mem ss_store ss_tstore set_mem]; try assumption.
+        constructor; cbn [s_pc s_stack s_mem s_world s_ret s_ctr with_mem ss_pc ss_stack ss_mem ss_store ss_tstore ss_ret set_mem]; try assumption.
         intros i. subst M2.
         rewrite mwrite_nth by (rewrite HlenB; apply mexpand_length; apply Nat.eqb_neq; exact Hn).
         rewrite smwrite_nth, Hsrc, !mexpand_nth.
@@ -456,7 +474,7 @@ Proof.
       unfold s_oog_range, oog_range. destruct (negb (z0 =? 0) && (lim <? z + z0)); [halt_leaf|].
       eexists; split; [reflexivity|].
       destruct HR as [h1 h2 h3 h4 h5 h6 h7 h8].
-      constructor; cbn [s_pc s_stack s_mem s_world s_ret s_ctr ss_pc ss_stack ss_mem ss_store ss_tstore set_stack]; try assumption.
+      constructor; cbn [s_pc s_stack s_mem s_world s_ret s_ctr ss_pc ss_stack ss_mem ss_store ss_tstore ss_ret set_stack]; try assumption.
       * rewrite h1. reflexivity.
       * rewrite <- skipn_map. reflexivity.
       * rewrite skipn_length. rewrite Est in h3. cbn in h3. lia.
@@ -532,7 +550,7 @@ Definition outcome_matches (k : leaf_kind) (r : result) : Prop :=
   | LOk ret st tst =>
       exists w ctr logs, r = ROk w ctr (map (beval rho) ret) logs /\
                          store_agree (w_storage w) st /\ store_agree (w_transient w) tst /\
-                         (forall a, get_balance w a = rho (VBal a))
+                         (forall a, get_balance w a = eval rho (sbal se a))
   | LRevert ret => exists ctr, r = RRevert ctr (map (beval rho) ret)
   | LHalt kd => exists ctr, r = RHalt ctr kd
   | LStuck _ | LFuel | LBadJumpEarly => True
@@ -703,7 +721,7 @@ Qed.
 Lemma R_init : forall w ctr,
   (forall k, sload_of (w_storage w) (se_this se) k = 0) ->
   (forall k, sload_of (w_transient w) (se_this se) k = 0) ->
-  (forall a, get_balance w a = rho (VBal a)) ->
+  (forall a, get_balance w a = eval rho (sbal se a)) ->
   R init_sstate (init_state w ctr).
 Proof.
   intros w ctr H1 H2 H3. constructor; cbn; auto; try lia.
